@@ -82,6 +82,13 @@ func genC17(seed int64, tier string) []caseOut {
 		panic(err)
 	}
 	hx, _ := dochandler.New("did:ionx")
+	// another DID (no keys, a service only) resolved while results of earlier resolutions are still held
+	otherDID := func() string {
+		sp := defaultSpec("create", rand.New(rand.NewSource(99)))
+		sp.patches = A{M{"action": "add-services", "services": A{docService("othersvc", "T", "https://other.example/")}}}
+		b := buildReq(sp, rand.New(rand.NewSource(98)), []uint{18})
+		return ns + ":" + b.suffix + ":" + b64(b.bytes)
+	}()
 	for i := 0; i < n; i++ {
 		kinds := []string{"Ed25519", "P-256", "P-384", "secp256k1"}
 		sp := defaultSpec("create", r)
@@ -96,7 +103,10 @@ func genC17(seed int64, tier string) []caseOut {
 			keys = append(keys, docKey(fmt.Sprintf("key%d", j+1), genKey(r, []string{"P-256", "Ed25519"}[r.Intn(2)]), ps...))
 		}
 		svcs := A{docService("svc1", "T", "https://example.com/a")}
-		switch r.Intn(3) {
+		switch []int{r.Intn(3), 3}[map[bool]int{true: 1, false: 0}[i%4 == 3]] {
+		case 3: // no keys at all: services and an alias only
+			nk = 0
+			sp.patches = A{M{"action": "add-services", "services": svcs}, M{"action": "add-also-known-as", "uris": A{"https://aka.example/1"}}}
 		case 0:
 			sp.patches = A{replacePatch(keys, svcs)}
 		case 1:
@@ -119,6 +129,15 @@ func genC17(seed int64, tier string) []caseOut {
 			recs = append(recs, map[string]interface{}{"kind": kind, "did": d, "impl_resolved": ok, "impl_panicked": panicked, "expect_resolve": expectResolve})
 		}
 		addV("created", did, true)
+		// the same resolution once more, its result held (not looked at) while everything below is resolved
+		held, heldErr := func() (res interface{}, err error) {
+			defer func() {
+				if recover() != nil {
+					err = fmt.Errorf("panic")
+				}
+			}()
+			return h.ResolveDocument(did)
+		}()
 		// single-character changes
 		alphabet := "ABCDEFGHIJKLMNOPQRSTUVWXYZabcdefghijklmnopqrstuvwxyz0123456789-_:=. "
 		positions := r.Perm(len(did))
@@ -183,6 +202,15 @@ func genC17(seed int64, tier string) []caseOut {
 		addV("extra-segment", ns+":label:"+b.suffix+":"+state, true)
 		addV("empty", "", false)
 		addV("only-namespace", ns+":", false)
+		// what was returned for the DID at first is still what it was
+		resolveImpl(h, otherDID)
+		if heldErr == nil {
+			hb, _ := json.Marshal(held)
+			var later interface{}
+			json.Unmarshal(hb, &later)
+			variants = append(variants, fmt.Sprintf("(mk_lfv %s %s true)", cStr(did), optJSON(later, true)))
+			recs = append(recs, map[string]interface{}{"kind": "created-result-held-while-others-resolve", "did": did, "impl_resolved": true, "expect_resolve": true})
+		}
 		// the handler of another method must not resolve it
 		_, okx, _ := resolveImpl(hx, did)
 		_, okx2, _ := resolveImpl(hx, "did:ionx:"+b.suffix+":"+state)
